@@ -49,6 +49,10 @@ class SleepClient(RunnerClient):
                     rec = ev.value(v)
                     act = dict(rec[2]).get("action") if rec is not None and rec[0] == "i" else None
                     return (h, b, s, dec, act == ("c", "retry"), flags)
+                if any(t.func is not None and t.func.qual.endswith(":determine_action_from_outcome") for t in tg) and granted:
+                    rec = ev.value(v)
+                    if rec is not None and rec[0] == "i" and str(rec[1]).endswith(":ContinueAction"):
+                        return (h, b, s, dec, "continue", flags)  # the loop action says: next attempt
             return cs
         if ev.kind != "call":
             return cs
@@ -175,6 +179,12 @@ def sleep_protocol(rep: Report, r1: str, r2: str, prog: Program) -> None:
             if flags:
                 for f in sorted(flags):
                     rep.fail(r1, f"{name}|{f}", f"{q}: {f}", where=prog.func(q).where(), function=q, path=short_witness(interp, ex))
+                continue
+            # a run may not end while the loop action just computed says `continue` (the granted retry - delay computed,
+            # token spent, `retry` reported, slept - must be followed by the next attempt)
+            cont = granted == "continue"
+            if cont and not (ex.how == "raise" and ex.kind in ("KeyboardInterrupt", "SystemExit", "CancelledError", "GeneratorExit")):
+                rep.fail(r1, f"{name}|ends-on-continue|{ex.how}:{ex.kind}", f"{q}: the run ends by {ex.how} {ex.kind or ''} although determine_action_from_outcome answered ContinueAction for the attempt just handled: a granted retry is not followed by the next attempt", where=prog.func(q).where(), function=q, path=short_witness(interp, ex))
                 continue
             rep.ok(r1)
             if dec in ("DEFER", "ABORT"):
